@@ -119,6 +119,7 @@ mut("m16a_sum_reads_past_filled", "C16", MATH, "            for i in 0..outputs_
 mut("m16b_terminal_partner_slot", "C16", LIB, "                    addends[addend_count].write(state);", "                    addends[1].write(state);", note="only-partner-present reads slot 0 unwritten")
 mut("m16c_axle_new_skips_first", "C16", DEV, "        for i in &mut inputs {\n            i.write(Terminal::new());", "        for i in inputs.iter_mut().skip(1) {\n            i.write(Terminal::new());")
 mut("m16d_prod_reads_last_slot", "C16", MATH, "            let mut value = value[0].assume_init();\n            for i in 0..outputs_filled - 1 {\n                value *= other_outputs[i].assume_init();\n            }", "            let mut value = value[0].assume_init();\n            for i in 0..outputs_filled - 1 {\n                value *= other_outputs[i].assume_init();\n            }\n            if N >= 7 && outputs_filled == 3 { let g = other_outputs[N - 2].assume_init(); let _ = g; }", note="arity >= 7 with exactly three present inputs: reads and discards an unwritten slot; invisible natively even when poisoned, only the interpreter sees it")
+mut("m16e_rc_clone_no_refcount", "C16", "src/reference.rs", "Self::RcRefCell(rc_ref_cell) => Self::RcRefCell(Rc::clone(&rc_ref_cell)),", "Self::RcRefCell(rc_ref_cell) => Self::RcRefCell(unsafe { Rc::from_raw(Rc::as_ptr(rc_ref_cell)) }),", note="a Reference that outlives its target; Miri sees the use-after-free")
 # ---- C17
 REF = "src/reference.rs"
 mut("m17a_arc_mutex_try_lock", "C17", REF, "            Self::ArcMutex(arc_mutex) => BorrowMut::MutexGuard(\n                arc_mutex\n                    .lock()", "            Self::ArcMutex(arc_mutex) => BorrowMut::MutexGuard(\n                arc_mutex\n                    .try_lock()", note="panics only under contention")
